@@ -122,12 +122,14 @@ def c06(tier):
     q = tier == "quick"
     cases = (mk("hostile", 900 if q else 40000, s, "default", n_ops=50)
              + mk("hostile", 250 if q else 10000, s + 1, "tiny", n_ops=50)
-             + mk("hostile", 150 if q else 8000, s + 2, "smallbuf", n_ops=50))
+             + mk("hostile", 150 if q else 8000, s + 2, "smallbuf", n_ops=50)
+             + mk("hostile", 200 if q else 8000, s + 3, "default", lane="msan", n_ops=40)
+             + mk("bus", 60 if q else 2000, s + 4, "default", lane="msan", n_ops=50))
     res = run_cases(cases)
     return report("C06", "exploration", res,
                   "hostile byte streams on all endpoints (raw, unix socket, HTTP/WebSocket): near-valid JSON-RPC with hostile member shapes/names/lengths/"
                   "duplicates, length-prefix games, mutated HTTP upgrades, the WebSocket opcode/FIN/RSV/MASK/length grid, byte-level mutations of valid sessions; "
-                  "random segmentation, epoll batching and read-buffer scribbling; oracle: AddressSanitizer+UBSan+LeakSanitizer silent, daemon stays in its loop, "
+                  "random segmentation, epoll batching and read-buffer scribbling; oracle: AddressSanitizer+UBSan+LeakSanitizer silent (gcc lane) and MemorySanitizer silent (clang lane, whole daemon instrumented), daemon stays in its loop, "
                   "and two witness connections keep being served correctly; distinct = input-shape signatures",
                   t0, tier, SIM_ASSUME + ["gcc ASan/UBSan see only heap/stack/global red zones and the UB kinds they instrument"],
                   min_events={"frames_generated": 20000, "http_status_400": 100, "ws_close_1002": 100})
@@ -195,6 +197,7 @@ def c08(tier):
         for c in cs:
             c["fill_byte"] = fb if fb is not None else (c["seed"] * 37) % 256
         cases += cs
+    cases += mk("access", 60 if q else 3000, s + 8, "default", lane="msan", n_ops=50)
     cases += mk("localadd", 20 if q else 400, s + 9, "localadd")
     cases += mk("localadd", 5 if q else 50, s + 10, "default")
     res = run_cases(cases)
@@ -202,7 +205,7 @@ def c08(tier):
                   "generated credential files (1-6 users x group subsets of 1..32 groups, admin/readonly, SHA-512/SHA-256/MD5 hashes), elements with generated "
                   "access declarations, sequences of authenticate (right, wrong, unknown, repeated, as another user) / fetch / get / set / call / passwd on raw, "
                   "unix and WebSocket peers; reference model with groups decides visibility (replicas, get results) and set/call rights; allocator fill bytes "
-                  "0x00 / 0xff / 0xa5 / seeded and heap pre-conditioning stand in for 'every value of uninitialised memory'; all passwords are unique tokens "
+                  "0x00 / 0xff / 0xa5 / seeded, heap pre-conditioning and a MemorySanitizer lane (any branch on an uninitialised group word is reported) stand in for 'every value of uninitialised memory'; all passwords are unique tokens "
                   "searched in every output byte and log line; local-only add from loopback v4/v6/mapped/unix vs remote origins; distinct = (authenticated, has "
                   "groups, transport) and origin signatures",
                   t0, tier, SIM_ASSUME + ["uninitialised memory is explored through allocator fill bytes and recycled chunks, not symbolically"],
